@@ -1246,6 +1246,15 @@ class Quantized(Sampler):
     ):
         values = self.sampler.sample(domain, spec, size, random_state)
         quantized = np.round(np.divide(values, self.q)) * self.q
+        # Rounding to a multiple of ``q`` must not leave ``[lower, upper]``
+        lower, upper = domain.lower, domain.upper
+        if isinstance(domain, Integer):
+            # Clip to the multiples of ``q`` inside the interval, if there are any
+            q_lower = np.ceil(lower / self.q) * self.q
+            q_upper = np.floor(upper / self.q) * self.q
+            if q_lower <= q_upper:
+                lower, upper = q_lower, q_upper
+        quantized = np.clip(quantized, lower, upper)
         if not isinstance(quantized, np.ndarray):
             return domain.cast(quantized)
         return list(quantized)
